@@ -146,13 +146,13 @@ class EdgeLandmark(BaseEdge):
         """
         # https://docs.ros.org/en/kinetic/api/rtabmap/html/OptimizerG2O_8cpp_source.html
         # fmt: off
-        if isinstance(self.vertices[0].pose, PoseSE2):
+        if isinstance(self.vertices[0].pose, PoseSE2) and isinstance(self.vertices[1].pose, PoseR2):
             # 2-D landmark edges in g2o don't support an offset, so anything other than the identity cannot be written
             if not np.array_equal(self.offset, PoseSE2.identity()):
                 raise NotImplementedError
             return "EDGE_SE2_XY {} {} {} {} ".format(self.vertex_ids[0], self.vertex_ids[1], self.estimate[0], self.estimate[1]) + " ".join([str(x) for x in self.information[np.triu_indices(2, 0)]]) + "\n"
 
-        if isinstance(self.vertices[0].pose, PoseSE3):
+        if isinstance(self.vertices[0].pose, PoseSE3) and isinstance(self.vertices[1].pose, PoseR3):
             return "EDGE_SE3_TRACKXYZ {} {} {} {} {} {} ".format(self.vertex_ids[0], self.vertex_ids[1], self.offset_id, self.estimate[0], self.estimate[1], self.estimate[2]) + " ".join([str(x) for x in self.information[np.triu_indices(3, 0)]]) + "\n"
         # fmt: on
 
